@@ -197,17 +197,134 @@ Theorem longer_is_greater a x r : vop OpLt a (a ++ x :: r) = true.
 Proof. apply vop_iff. simpl. apply ver_lt_iff. apply lex_prefix_lt, comp_cmp_refl. Qed.
 
 (* ------------------------------------------------------------------ *)
+(* Character classes (Version/Unicode.v)                                *)
+
+Lemma ublock_range c l v : ublock c l = Some v ->
+  exists b, In b l /\ b <= c /\ c < b + 10 /\ v = c - b.
+Proof.
+  induction l as [|b r IH]; simpl; [discriminate|].
+  destruct ((b <=? c) && (c <? b + 10)) eqn:E.
+  - intro H. inversion H; subst. apply andb_true_iff in E. destruct E as [E1 E2].
+    apply N.leb_le in E1. apply N.ltb_lt in E2. exists b. auto.
+  - intro H. destruct (IH H) as (b' & Hin & Hb). exists b'. auto.
+Qed.
+(* every decimal digit has a value below ten *)
+Lemma udigit_val_lt c : udigit_val c < 10.
+Proof.
+  unfold udigit_val, udigit. destruct (ublock c udigit_blocks) as [v|] eqn:E; [|lia].
+  apply ublock_range in E. destruct E as (b & _ & H1 & H2 & ->). lia.
+Qed.
+(* the ASCII digits are the first block, with their usual values *)
+Lemma ascii_digit_udigit c : is_digit c = true -> is_udigit c = true /\ udigit_val c = digit_val c.
+Proof.
+  unfold is_digit, is_udigit, udigit_val, udigit, udigit_blocks, digit_val. intro H.
+  apply andb_true_iff in H. destruct H as [H1 H2]. apply N.leb_le in H1. apply N.leb_le in H2.
+  cbn [ublock]. replace ((48 <=? c) && (c <? 48 + 10)) with true; [auto|].
+  symmetry. apply andb_true_iff. split; [apply N.leb_le | apply N.ltb_lt]; lia.
+Qed.
+Lemma blocks_low : forallb (fun b => (b =? 48) || (1632 <=? b)) udigit_blocks = true.
+Proof. vm_compute. reflexivity. Qed.
+(* below 1632 the only decimal digits are the ASCII ones *)
+Lemma udigit_low c : c < 1632 -> is_udigit c = is_digit c.
+Proof.
+  intro Hc. unfold is_udigit, udigit. destruct (ublock c udigit_blocks) as [v|] eqn:E.
+  - apply ublock_range in E. destruct E as (b & Hin & H1 & H2 & _).
+    pose proof (proj1 (forallb_forall _ _) blocks_low b Hin) as Hb. simpl in Hb.
+    apply orb_true_iff in Hb. destruct Hb as [Hb|Hb]; [apply N.eqb_eq in Hb | apply N.leb_le in Hb; lia].
+    subst b. unfold is_digit. symmetry. apply andb_true_iff. split; apply N.leb_le; lia.
+  - unfold is_digit. destruct ((48 <=? c) && (c <=? 57)) eqn:D; [|reflexivity].
+    assert (H : is_digit c = true) by exact D. apply ascii_digit_udigit in H.
+    unfold is_udigit, udigit in H. rewrite E in H. destruct H; discriminate.
+Qed.
+Lemma alpha_not_udigit c : is_alpha c = true -> is_udigit c = false.
+Proof.
+  intro H. assert (Hc : c < 1632 /\ is_digit c = false).
+  { unfold is_alpha, is_lower, is_upper, is_digit in *.
+    apply orb_true_iff in H. destruct H as [H|H]; apply andb_true_iff in H; destruct H as [H1 H2];
+      apply N.leb_le in H1; apply N.leb_le in H2; (split; [lia|]);
+      apply andb_false_iff; right; apply N.leb_gt; lia. }
+  destruct Hc as [Hc Hd]. rewrite udigit_low by exact Hc. exact Hd.
+Qed.
+
+(* ------------------------------------------------------------------ *)
 (* Tokenizer facts                                                      *)
 
-Definition all_digits (s : str) := forallb is_digit s = true.
-Definition is_sep (c : char) := negb (is_digit c) && negb (is_alpha c).
+Definition all_digits (s : str) := forallb is_udigit s = true.
+Definition all_alpha (s : str) := forallb is_alpha s = true.
+Definition is_sep (c : char) := negb (is_udigit c) && negb (is_alpha c).
+Definition not_digit_start (s : str) := match s with c :: _ => is_udigit c = false | [] => True end.
+Definition not_alpha_start (s : str) := match s with c :: _ => is_alpha c = false | [] => True end.
+(* s is empty or ends with a separator *)
+Definition ends_sep (s : str) : bool := match rev s with [] => true | c :: _ => is_sep c end.
 
 Lemma tok_digits ds : all_digits ds -> forall acc rest,
-  (match rest with c :: _ => is_digit c = false | [] => True end) ->
-  tok (ds ++ rest) (TNum acc) = tok rest (TNum (fold_left (fun a c => a * 10 + digit_val c) ds acc)).
+  tok (ds ++ rest) (TNum acc) = tok rest (TNum (fold_left (fun a c => a * 10 + udigit_val c) ds acc)).
 Proof.
-  unfold all_digits. induction ds as [|d ds IH]; intros Hd acc rest Hr; simpl in *; [reflexivity|].
+  unfold all_digits. induction ds as [|d ds IH]; intros Hd acc rest; simpl in *; [reflexivity|].
   apply andb_true_iff in Hd. destruct Hd as [Hd1 Hd2]. rewrite Hd1. apply IH; assumption.
+Qed.
+Lemma tok_alphas al : all_alpha al -> forall racc rest,
+  tok (al ++ rest) (TAlpha racc) = tok rest (TAlpha (rev al ++ racc)).
+Proof.
+  unfold all_alpha. induction al as [|d al IH]; intros Hd racc rest; simpl in *; [reflexivity|].
+  apply andb_true_iff in Hd. destruct Hd as [Hd1 Hd2]. rewrite (alpha_not_udigit d Hd1), Hd1.
+  rewrite IH by assumption. rewrite <- app_assoc. reflexivity.
+Qed.
+Lemma tok_num_flush rest a : not_digit_start rest -> tok rest (TNum a) = CNum a :: tok rest TNone.
+Proof.
+  destruct rest as [|c r]; simpl; [reflexivity|]. intros ->. destruct (is_alpha c); reflexivity.
+Qed.
+Lemma tok_alpha_flush rest ra : not_alpha_start rest -> tok rest (TAlpha ra) = CAlpha (rev ra) :: tok rest TNone.
+Proof.
+  destruct rest as [|c r]; simpl; [reflexivity|]. intros ->. destruct (is_udigit c); reflexivity.
+Qed.
+
+(* a maximal digit run at the front is one numeric component, its int() value *)
+Theorem tokenize_digits_cons ds rest :
+  ds <> [] -> all_digits ds -> not_digit_start rest ->
+  tokenize (ds ++ rest) = CNum (udigits_val ds) :: tokenize rest.
+Proof.
+  intros Hne Hd Hr. destruct ds as [|d ds]; [congruence|].
+  assert (Hd' := Hd). unfold all_digits in Hd'. simpl in Hd'. apply andb_true_iff in Hd'. destruct Hd' as [Hd1 Hd2].
+  unfold tokenize. simpl app. cbn [tok]. rewrite Hd1. cbn [tflush app].
+  rewrite (tok_digits ds Hd2). rewrite tok_num_flush by exact Hr.
+  unfold udigits_val. simpl. reflexivity.
+Qed.
+(* a maximal ASCII-letter run at the front is one alphabetic component *)
+Theorem tokenize_alpha_cons al rest :
+  al <> [] -> all_alpha al -> not_alpha_start rest ->
+  tokenize (al ++ rest) = CAlpha al :: tokenize rest.
+Proof.
+  intros Hne Hd Hr. destruct al as [|d al]; [congruence|].
+  assert (Hd' := Hd). unfold all_alpha in Hd'. simpl in Hd'. apply andb_true_iff in Hd'. destruct Hd' as [Hd1 Hd2].
+  unfold tokenize. simpl app. cbn [tok]. rewrite (alpha_not_udigit d Hd1), Hd1. cbn [tflush app].
+  rewrite (tok_alphas al Hd2). rewrite tok_alpha_flush by exact Hr.
+  rewrite rev_app_distr, rev_involutive. reflexivity.
+Qed.
+
+(* a separator ends the current component; tokenizing is compositional across it *)
+Lemma tok_app_sep c q : is_sep c = true -> forall p st,
+  tok (p ++ c :: q) st = tok p st ++ tokenize q.
+Proof.
+  unfold is_sep. intro Hc. apply andb_true_iff in Hc. destruct Hc as [Hc1 Hc2].
+  apply negb_true_iff in Hc1. apply negb_true_iff in Hc2.
+  induction p as [|x p IH]; intro st.
+  - simpl. rewrite Hc1, Hc2. reflexivity.
+  - simpl. destruct (is_udigit x); [|destruct (is_alpha x)]; destruct st;
+      rewrite ?IH, <- ?app_assoc; reflexivity.
+Qed.
+Theorem tokenize_app_sep p c q : is_sep c = true ->
+  tokenize (p ++ c :: q) = tokenize p ++ tokenize q.
+Proof. intro H. apply tok_app_sep. exact H. Qed.
+Theorem tokenize_after_boundary b q : ends_sep b = true ->
+  tokenize (b ++ q) = tokenize b ++ tokenize q.
+Proof.
+  unfold ends_sep. intro H. destruct (rev b) as [|c l] eqn:E.
+  - apply (f_equal (@rev _)) in E. rewrite rev_involutive in E. subst b. reflexivity.
+  - apply (f_equal (@rev _)) in E. rewrite rev_involutive in E. subst b. simpl rev.
+    rewrite <- app_assoc. simpl app. rewrite (tokenize_app_sep _ c q H).
+    replace (rev l ++ [c]) with (rev l ++ c :: []) by reflexivity.
+    rewrite (tokenize_app_sep _ c [] H). unfold tokenize at 3. simpl tok. rewrite app_nil_r. reflexivity.
 Qed.
 
 (* A dotted numeric version "d1.d2.….dn" tokenizes to its numbers. *)
@@ -217,23 +334,123 @@ Fixpoint dotted (dss : list str) : str :=
   | [ds] => ds
   | ds :: r => ds ++ 46 :: dotted r
   end.
+Lemma dot_is_sep : is_sep 46 = true.
+Proof. vm_compute. reflexivity. Qed.
 Theorem tokenize_dotted dss :
   Forall (fun ds => all_digits ds /\ ds <> []) dss ->
-  tokenize (dotted dss) = map (fun ds => CNum (digits_val ds)) dss.
+  tokenize (dotted dss) = map (fun ds => CNum (udigits_val ds)) dss.
 Proof.
-  unfold tokenize. induction dss as [|ds r IH]; intro H; [reflexivity|].
+  induction dss as [|ds r IH]; intro H; [reflexivity|].
   inversion H as [|? ? [Hd Hne] Hr]; subst.
-  destruct ds as [|d ds]; [congruence|].
-  assert (Hd' := Hd). unfold all_digits in Hd'. simpl in Hd'. apply andb_true_iff in Hd'. destruct Hd' as [Hd1 Hd2].
   destruct r as [|ds2 r].
-  - simpl. rewrite Hd1.
-    pose proof (tok_digits ds Hd2 (digit_val d) [] I) as Ht. rewrite app_nil_r in Ht.
-    rewrite Ht. simpl. unfold digits_val. simpl. reflexivity.
-  - change (dotted ((d :: ds) :: ds2 :: r)) with ((d :: ds) ++ 46 :: dotted (ds2 :: r)).
-    simpl app. cbn [tok]. rewrite Hd1.
-    rewrite (tok_digits ds Hd2 _ (46 :: dotted (ds2 :: r))); [|reflexivity].
-    cbn [tok]. change (is_digit 46) with false. change (is_alpha 46) with false. cbv iota.
-    cbn [tflush app]. rewrite IH by assumption. unfold digits_val. simpl. reflexivity.
+  - pose proof (tokenize_digits_cons ds [] Hne Hd I) as T. rewrite app_nil_r in T. simpl. rewrite T. reflexivity.
+  - change (dotted (ds :: ds2 :: r)) with (ds ++ 46 :: dotted (ds2 :: r)).
+    rewrite tokenize_digits_cons; [|assumption|assumption|vm_compute; reflexivity].
+    replace (46 :: dotted (ds2 :: r)) with ([] ++ 46 :: dotted (ds2 :: r)) by reflexivity.
+    rewrite (tokenize_app_sep [] 46 _ dot_is_sep). rewrite IH by assumption. reflexivity.
+Qed.
+(* for ASCII digit runs the value is the usual one *)
+Lemma udigits_val_ascii ds : forallb is_digit ds = true -> udigits_val ds = digits_val ds.
+Proof.
+  unfold udigits_val, digits_val. generalize 0. induction ds as [|d ds IH]; intros acc H; simpl in *; [reflexivity|].
+  apply andb_true_iff in H. destruct H as [H1 H2]. destruct (ascii_digit_udigit d H1) as [_ ->]. apply IH. exact H2.
+Qed.
+Lemma all_digits_ascii ds : forallb is_digit ds = true -> all_digits ds.
+Proof.
+  unfold all_digits. induction ds as [|d ds IH]; simpl; [reflexivity|]. intro H.
+  apply andb_true_iff in H. destruct H as [H1 H2]. destruct (ascii_digit_udigit d H1) as [-> _]. apply IH. exact H2.
+Qed.
+
+(* The property's ordering rules on raw strings: [b] is empty or ends with a
+   separator, so the component that follows starts at a component boundary. *)
+Theorem str_numeric_numerically b ds1 ds2 r1 r2 :
+  ends_sep b = true -> ds1 <> [] -> ds2 <> [] -> all_digits ds1 -> all_digits ds2 ->
+  not_digit_start r1 -> not_digit_start r2 -> udigits_val ds1 < udigits_val ds2 ->
+  vop OpLt (tokenize (b ++ ds1 ++ r1)) (tokenize (b ++ ds2 ++ r2)) = true.
+Proof.
+  intros Hb N1 N2 D1 D2 R1 R2 Hlt.
+  rewrite (tokenize_after_boundary b (ds1 ++ r1) Hb), (tokenize_after_boundary b (ds2 ++ r2) Hb).
+  rewrite (tokenize_digits_cons ds1 r1), (tokenize_digits_cons ds2 r2) by assumption.
+  apply numeric_numerically. exact Hlt.
+Qed.
+Theorem str_numeric_above_alpha b al ds r1 r2 :
+  ends_sep b = true -> al <> [] -> ds <> [] -> all_alpha al -> all_digits ds ->
+  not_alpha_start r1 -> not_digit_start r2 ->
+  vop OpLt (tokenize (b ++ al ++ r1)) (tokenize (b ++ ds ++ r2)) = true.
+Proof.
+  intros Hb N1 N2 D1 D2 R1 R2.
+  rewrite (tokenize_after_boundary b (al ++ r1) Hb), (tokenize_after_boundary b (ds ++ r2) Hb).
+  rewrite (tokenize_alpha_cons al r1), (tokenize_digits_cons ds r2) by assumption.
+  apply numeric_above_alpha.
+Qed.
+Theorem str_longer_is_greater a c q :
+  is_sep c = true -> tokenize q <> [] ->
+  vop OpLt (tokenize a) (tokenize (a ++ c :: q)) = true.
+Proof.
+  intros Hc Hq. rewrite tokenize_app_sep by exact Hc.
+  destruct (tokenize q) as [|x r]; [congruence|]. apply longer_is_greater.
+Qed.
+
+(* Version(s) raises (ValueError of int()) only on a digit run beyond the limit *)
+Lemma run_over_length lim s : forall cur, run_over lim s cur = true -> (lim < cur + length s)%nat.
+Proof.
+  induction s as [|c r IH]; intros cur; simpl; [discriminate|].
+  destruct (is_udigit c).
+  - destruct (Nat.ltb lim (S cur)) eqn:E.
+    + intros _. apply Nat.ltb_lt in E. lia.
+    + intro H. apply IH in H. lia.
+  - intro H. apply IH in H. lia.
+Qed.
+Theorem version_init_short s : (length s <= int_max_str_digits)%nat -> version_init s = Some (tokenize s).
+Proof.
+  intro H. unfold version_init. destruct (run_over int_max_str_digits s 0) eqn:E; [|reflexivity].
+  apply run_over_length in E. lia.
+Qed.
+Theorem version_init_value s v : version_init s = Some v -> v = tokenize s.
+Proof. unfold version_init. destruct (run_over _ _ _); congruence. Qed.
+Lemma run_over_digits lim ds rest : all_digits ds -> forall cur,
+  ds <> [] -> (lim < cur + length ds)%nat -> run_over lim (ds ++ rest) cur = true.
+Proof.
+  unfold all_digits. induction ds as [|d ds IH]; intros Hd cur Hne Hl; simpl in *; [congruence|].
+  apply andb_true_iff in Hd. destruct Hd as [Hd1 Hd2]. rewrite Hd1.
+  destruct (Nat.ltb lim (S cur)) eqn:E; [reflexivity|]. apply Nat.ltb_ge in E.
+  destruct ds as [|d2 ds]; [simpl in Hl; lia|].
+  apply IH; [assumption | discriminate | simpl in *; lia].
+Qed.
+Lemma run_over_has lim pre ds post : all_digits ds -> (lim < length ds)%nat ->
+  forall cur, run_over lim (pre ++ ds ++ post) cur = true.
+Proof.
+  intros Hd Hl. induction pre as [|c p IH]; intro cur.
+  - simpl. apply run_over_digits; [assumption | destruct ds; simpl in Hl; [lia | discriminate] | lia].
+  - simpl. destruct (is_udigit c); [destruct (Nat.ltb lim (S cur)); [reflexivity|]|]; apply IH.
+Qed.
+Lemma run_over_inv lim s : forall cur, run_over lim s cur = true ->
+  exists pre ds post, s = pre ++ ds ++ post /\ all_digits ds /\
+    ((lim < length ds)%nat \/ (pre = [] /\ (lim < cur + length ds)%nat)).
+Proof.
+  induction s as [|c r IH]; intros cur; simpl; [discriminate|].
+  destruct (is_udigit c) eqn:Ec.
+  - destruct (Nat.ltb lim (S cur)) eqn:E.
+    + intros _. apply Nat.ltb_lt in E. exists [], [c], r. unfold all_digits. simpl. rewrite Ec.
+      repeat split; try reflexivity. right. split; [reflexivity|lia].
+    + intro H. destruct (IH _ H) as (pre & ds & post & -> & Hd & [Hl|[-> Hl]]).
+      * exists (c :: pre), ds, post. repeat split; auto.
+      * exists [], (c :: ds), post. unfold all_digits in *. simpl. rewrite Ec, Hd.
+        repeat split; try reflexivity. right. split; [reflexivity|lia].
+  - intro H. destruct (IH _ H) as (pre & ds & post & -> & Hd & [Hl|[-> Hl]]).
+    + exists (c :: pre), ds, post. repeat split; auto.
+    + exists [c], ds, post. repeat split; auto.
+Qed.
+(* Version(s) raises iff s has a run of more than 4300 decimal digits *)
+Theorem version_init_raises_iff s :
+  version_init s = None <->
+  exists pre ds post, s = pre ++ ds ++ post /\ all_digits ds /\ (int_max_str_digits < length ds)%nat.
+Proof.
+  unfold version_init. split.
+  - destruct (run_over int_max_str_digits s 0) eqn:E; [|discriminate]. intros _.
+    destruct (run_over_inv _ _ _ E) as (pre & ds & post & H1 & H2 & [H3|[_ H3]]);
+      exists pre, ds, post; repeat split; auto.
+  - intros (pre & ds & post & -> & Hd & Hl). rewrite (run_over_has _ pre ds post Hd Hl 0%nat). reflexivity.
 Qed.
 
 (* ------------------------------------------------------------------ *)
